@@ -372,9 +372,9 @@ proof fn lemma_ready_set_after_write(pre: Seq<NodeInfo>, post: Seq<NodeInfo>, m:
     ready: Set<String>, ready2: Set<String>, n: int)
     requires
         ids_wf(pre, m), ready_set_wf(pre, ready, m), one_changed(pre, post, n),
-        is_ready(pre[n].state) == is_ready(post[n].state) ==> ready2 == ready,
-        is_ready(pre[n].state) && !is_ready(post[n].state) ==> ready2 == ready.remove(pre[n].job_id),
-        !is_ready(pre[n].state) && is_ready(post[n].state) ==> ready2 == ready.insert(pre[n].job_id),
+        is_ready(pre[n].state) == is_ready(post[n].state) ==> ready2 =~= ready,
+        is_ready(pre[n].state) && !is_ready(post[n].state) ==> ready2 =~= ready.remove(pre[n].job_id),
+        !is_ready(pre[n].state) && is_ready(post[n].state) ==> ready2 =~= ready.insert(pre[n].job_id),
     ensures ready_set_wf(post, ready2, m),
 {
     assert forall|i: int| 0 <= i < post.len() implies (is_ready(#[trigger] post[i].state) <==> ready2.contains(post[i].job_id)) by {
@@ -399,9 +399,9 @@ proof fn lemma_cleanup_set_after_write(pre: Seq<NodeInfo>, post: Seq<NodeInfo>, 
     cl: Set<String>, cl2: Set<String>, n: int)
     requires
         ids_wf(pre, m), cleanup_set_wf(pre, cl, m), one_changed(pre, post, n),
-        is_rfc(pre[n].state) == is_rfc(post[n].state) ==> cl2 == cl,
-        is_rfc(pre[n].state) && !is_rfc(post[n].state) ==> cl2 == cl.remove(pre[n].job_id),
-        !is_rfc(pre[n].state) && is_rfc(post[n].state) ==> cl2 == cl.insert(pre[n].job_id),
+        is_rfc(pre[n].state) == is_rfc(post[n].state) ==> cl2 =~= cl,
+        is_rfc(pre[n].state) && !is_rfc(post[n].state) ==> cl2 =~= cl.remove(pre[n].job_id),
+        !is_rfc(pre[n].state) && is_rfc(post[n].state) ==> cl2 =~= cl.insert(pre[n].job_id),
     ensures cleanup_set_wf(post, cl2, m),
 {
     assert forall|i: int| 0 <= i < post.len() implies (is_rfc(#[trigger] post[i].state) <==> cl2.contains(post[i].job_id)) by {
@@ -1173,12 +1173,12 @@ proof fn lemma_write_ok(pre: Seq<NodeInfo>, post: Seq<NodeInfo>, m: Map<String, 
         core_ok_x(pre, m, dag, r0, c0, fin, n), one_changed(pre, post, n),
         lc_le(pre[n].state, post[n].state), out_wf_one(post[n]),
         pre[n].history_output is Some ==> post[n].history_output == pre[n].history_output,
-        is_ready(pre[n].state) == is_ready(post[n].state) ==> r1 == r0,
-        is_ready(pre[n].state) && !is_ready(post[n].state) ==> r1 == r0.remove(pre[n].job_id),
-        !is_ready(pre[n].state) && is_ready(post[n].state) ==> r1 == r0.insert(pre[n].job_id),
-        is_rfc(pre[n].state) == is_rfc(post[n].state) ==> c1 == c0,
-        is_rfc(pre[n].state) && !is_rfc(post[n].state) ==> c1 == c0.remove(pre[n].job_id),
-        !is_rfc(pre[n].state) && is_rfc(post[n].state) ==> c1 == c0.insert(pre[n].job_id),
+        is_ready(pre[n].state) == is_ready(post[n].state) ==> r1 =~= r0,
+        is_ready(pre[n].state) && !is_ready(post[n].state) ==> r1 =~= r0.remove(pre[n].job_id),
+        !is_ready(pre[n].state) && is_ready(post[n].state) ==> r1 =~= r0.insert(pre[n].job_id),
+        is_rfc(pre[n].state) == is_rfc(post[n].state) ==> c1 =~= c0,
+        is_rfc(pre[n].state) && !is_rfc(post[n].state) ==> c1 =~= c0.remove(pre[n].job_id),
+        !is_rfc(pre[n].state) && is_rfc(post[n].state) ==> c1 =~= c0.insert(pre[n].job_id),
     ensures core_ok(post, m, dag, r1, c1, fin), jobs_step(pre, post),
 {
     lemma_ids_after_write(pre, post, m, n);
@@ -1330,12 +1330,12 @@ proof fn lemma_arm_write(oldj: Seq<NodeInfo>, pre: Seq<NodeInfo>, post: Seq<Node
         core_ok_x(pre, m, dag, r0, c0, fin, x), one_changed(pre, post, n),
         lc_le(pre[n].state, post[n].state), out_wf_one(post[n]),
         pre[n].history_output is Some ==> post[n].history_output == pre[n].history_output,
-        is_ready(pre[n].state) == is_ready(post[n].state) ==> r1 == r0,
-        is_ready(pre[n].state) && !is_ready(post[n].state) ==> r1 == r0.remove(pre[n].job_id),
-        !is_ready(pre[n].state) && is_ready(post[n].state) ==> r1 == r0.insert(pre[n].job_id),
-        is_rfc(pre[n].state) == is_rfc(post[n].state) ==> c1 == c0,
-        is_rfc(pre[n].state) && !is_rfc(post[n].state) ==> c1 == c0.remove(pre[n].job_id),
-        !is_rfc(pre[n].state) && is_rfc(post[n].state) ==> c1 == c0.insert(pre[n].job_id),
+        is_ready(pre[n].state) == is_ready(post[n].state) ==> r1 =~= r0,
+        is_ready(pre[n].state) && !is_ready(post[n].state) ==> r1 =~= r0.remove(pre[n].job_id),
+        !is_ready(pre[n].state) && is_ready(post[n].state) ==> r1 =~= r0.insert(pre[n].job_id),
+        is_rfc(pre[n].state) == is_rfc(post[n].state) ==> c1 =~= c0,
+        is_rfc(pre[n].state) && !is_rfc(post[n].state) ==> c1 =~= c0.remove(pre[n].job_id),
+        !is_rfc(pre[n].state) && is_rfc(post[n].state) ==> c1 =~= c0.insert(pre[n].job_id),
     ensures core_ok(post, m, dag, r1, c1, fin), jobs_step(oldj, post), core_ok_x(post, m, dag, r1, c1, fin, -1),
 {
     lemma_core_x(post, m, dag, r1, c1, fin, -1);
